@@ -5,4 +5,4 @@ ls -d seeded/*/ | sed 's#/$##' | while read d; do
   n=$(basename $d); pid=${n%%-*}
   if [ $# -gt 0 ]; then ok=0; for a in "$@"; do [[ $n == $a* ]] && ok=1; done; [ $ok = 1 ] || continue; fi
   echo "$pid $d"
-done | xargs -P 4 -L 1 bash -c 'out=$(tools/evalmut.sh $0 $1/patch.diff $1/demo.py 2>&1); v=$(echo "$out" | grep -c "^VIOLATION"); nf=$(echo "$out" | grep -c "no-failing-input-found"); s=$(echo "$out" | grep -c "32 passed"); d0=$(echo "$out" | grep -c "clean tree: exit 0"); d1=$(echo "$out" | grep -c "with the change: exit 1"); echo "$1 suite_ok=$s demo_clean_ok=$d0 demo_fails=$d1 violation=$v no_input=$nf"'
+done | xargs -P ${SEEDED_PAR:-4} -L 1 bash -c 'out=$(tools/evalmut.sh $0 $1/patch.diff $1/demo.py 2>&1); v=$(echo "$out" | grep -c "^VIOLATION"); nf=$(echo "$out" | grep -c "no-failing-input-found"); s=$(echo "$out" | grep -c "32 passed"); d0=$(echo "$out" | grep -c "clean tree: exit 0"); d1=$(echo "$out" | grep -c "with the change: exit 1"); echo "$1 suite_ok=$s demo_clean_ok=$d0 demo_fails=$d1 violation=$v no_input=$nf"'
